@@ -155,6 +155,7 @@ struct Run<'a> {
     /// inputs kept for the CLI leg: (class, text, in-process panic locations)
     cli_sample: Vec<(String, String, Vec<String>)>,
     cli_per_class: usize,
+    cli_max: usize,
     hang_candidates: usize,
 }
 
@@ -253,7 +254,7 @@ impl<'a> Run<'a> {
             self.ev.sample(json!({"class": class, "input": text, "furthest_stage": furthest, "diagnostics": rep.diagnostics}));
         }
         let n_cli = self.cli_sample.iter().filter(|c| c.0 == class).count();
-        if fresh && n_cli < self.cli_per_class && (n_cli == 0 || h % 13 == 0) {
+        if fresh && n_cli < self.cli_per_class && self.cli_sample.len() < self.cli_max && (n_cli == 0 || h % 13 == 0) && (class != "prefix" || text.len() > 200) {
             let locs = rep.fails.iter().filter_map(|f| f.loc.clone()).collect();
             self.cli_sample.push((class.to_string(), text.to_string(), locs));
         }
@@ -498,6 +499,7 @@ fn main() {
         sample_quota: BTreeMap::new(),
         cli_sample: Vec::new(),
         cli_per_class: args.tier.pick(1, 20),
+        cli_max: args.tier.pick(14, 600),
         hang_candidates: 0,
     };
 
